@@ -80,6 +80,16 @@ def build(b, version_ok=True):
   return con, buf0, d, S, fr
 
 
+def decoder_pre(I, st, args, kws):
+  """the decoders read an 8-byte header before anything else: handing them a frame whose declared length is
+  shorter would decode bytes beyond the frame (C10: never consume bytes beyond a message's declared length)"""
+  from pyvc import sbytes as sb
+  from pyvc.values import concretize, zint
+  raw, offset = args[1], args[2]
+  L = concretize(zint(sb.byte_at(raw, offset + 2, st)) * 256 + zint(sb.byte_at(raw, offset + 3, st)))
+  return L >= 8
+
+
 def specs(b, d, fr):
   """callee contracts used by the proof"""
   if b.mode != "sym":
@@ -104,7 +114,7 @@ def specs(b, d, fr):
     "contracts.c10_framing:StubSock.recv": CallSpec("opaque", returns=lambda I, st, a, k: d,
                                                     envelope="recv returns 1..2048 arbitrary bytes"),
     "pox.openflow.libopenflow_01:ofp_base.unpack_new":
-      CallSpec("contract", returns=unpack_returns, may_raise=[AssertionError, of.UnderrunError],
+      CallSpec("contract", returns=unpack_returns, requires=decoder_pre, may_raise=[AssertionError, of.UnderrunError],
                envelope="family contract of the message decoders: returns offset + declared length or raises "
                         "(c10_unpack_total / C01 units)"),
     "contracts.c10_framing:stub_handler": CallSpec("opaque", ghost=handler_ghost, may_raise=[Exception],
@@ -220,7 +230,7 @@ def switch_specs(b, fr):
 
   return {
     "pox.openflow.libopenflow_01:ofp_base.unpack_new":
-      CallSpec("contract", returns=unpack_returns, may_raise=[AssertionError, of.UnderrunError],
+      CallSpec("contract", returns=unpack_returns, requires=decoder_pre, may_raise=[AssertionError, of.UnderrunError],
                envelope="family contract of the message decoders (c10_unpack_total / C01)"),
     "contracts.c10_framing:stub_on_message": CallSpec("opaque", ghost=handler_ghost, may_raise=[Exception],
                                                       envelope="the datapath's message handler may raise"),
